@@ -192,14 +192,21 @@ def value_roundtrip(c, ty, n):
     if rv is None or rv[0] != 'int':
         return None, 'value() result %s' % str(rv)[:40]
     view = bits.BitView(an, out).lin_bits(rv[1], ity)
-    ok = len(view) == width
-    for k in range(min(width, len(view))):
+    if len(view) != width:
+        return None, 'result width'
+    ok = True
+    for k in range(width):
         b = view[k]
-        if k < 8 * n:
-            ok = ok and b == ('i', src[0], k)
-        else:
-            ok = ok and b == 0
-    return ok, 'result bits %s' % bits.fmt(view)
+        want = ('i', src[0], k) if k < 8 * n else 0
+        if b == want:
+            continue
+        # a bit the interpreter could not follow (a byte copy written as a loop, a helper it does not model) is not a verdict;
+        # a bit that is known and different (another bit of the argument, a constant) is
+        definite = b in (0, 1) or (isinstance(b, tuple) and b[0] in ('i', 'n') and (b[1] == src[0] or (isinstance(b[1], tuple) and b[1][1] == src[0])))
+        if definite:
+            return False, 'result bit %d is %s' % (k, bits.fmt([b]))
+        ok = None
+    return ok, ('identity' if ok else 'some result bits are not followed by the interpreter')
 
 
 def check_wire(c, res, ty, d, n, not_judged):
@@ -325,6 +332,47 @@ def _reversed_whole(bf, local):
     return out
 
 
+def wrappers_roundtrip(c, ty, n):
+    """AsRef<[u8]>::as_ref(&From<[u8; N]>::from(bytes)) element by element; (True | False | None, text)"""
+    prog = c.prog
+    fb = prog.by_short.get('<%s as core::convert::From<[u8; %d]>>::from' % (ty, n)) or []
+    ab = prog.by_short.get('<%s as core::convert::AsRef<[u8]>>::as_ref' % ty) or []
+    if len(fb) != 1 or len(ab) != 1:
+        return None, 'bodies not found'
+    an = absint_interp.new_analyzer(prog, max_depth=6)
+    names = ['wb%d' % i for i in range(n)]
+
+    def setup(an_, fr, st):
+        els = {}
+        for i, nm in enumerate(names):
+            st.lo[nm], st.hi[nm] = 0, 255
+            els[i] = ('int', Lin.sym(nm))
+        st.env[(fr.id, 1)] = ('array', n, els, None, None, 'u8')
+    try:
+        fr, out = an.analyze_entry(fb[0], setup=setup)
+        if out is None:
+            return None, 'From not evaluated'
+        out.mem[('obj', 'textwrap*')] = out.env.get((fr.id, 0))
+        rv = an.call_body(ab[0], [('ref', ('O', 'textwrap*', ()))], None, out, {})
+        if rv is None or rv[0] != 'sref' or not rv[3].is_const():
+            return None, 'as_ref result %s' % str(rv)[:40]
+        if rv[3].k != n:
+            return False, 'as_ref returns %d bytes' % rv[3].k
+        unknown = False
+        for i in range(n):
+            e = an.read_elem(rv, Lin.const(i), fr, out)
+            lin = an.as_int(e, out) if e is not None else None
+            sg = lin.single() if lin is not None else None
+            if sg and sg[1] == 1 and lin.k == 0 and sg[0] == names[i]:
+                continue
+            if sg and sg[1] == 1 and lin.k == 0 and sg[0] in names:
+                return False, 'byte %d handed back is byte %d of the array stored' % (i, names.index(sg[0]))
+            unknown = True
+        return (None, 'not followed by the interpreter') if unknown else (True, 'identity')
+    except Exception as e:
+        return None, 'not evaluated (%s)' % type(e).__name__
+
+
 def _per_octet_format(c, bf, clos):
     """Display written as `for b in bytes { write!(f, "{:02x}", b) }` (loop, for_each or try_for_each; closure or inline):
     {n_formats, literals, width, zero, bad_flags, whole, n_rev} or None when the body has no hex placeholder of a byte"""
@@ -416,28 +464,14 @@ def check_bytes(c, res, ty, d, n, not_judged, expect_reversed):
             why.append('Ok is returned without the decoding having succeeded')
         res.require(not why, 'C19:text:%s:parse' % key, '%s FromStr: %s' % (key, '; '.join(why)), bp.body.path, 'TEXT-PARSE(whole string -> whole array, error propagated)',
                     instance='%s: FromStr decodes %d hex digits into the whole array%s' % (key, 2 * n, ', reversed' if rev_p else ''))
-    # the two conversions the text forms go through are plain wrappers of the stored bytes
-    fb = c.prog.by_short.get('<%s as core::convert::From<[u8; %d]>>::from' % (ty, n)) or []
-    ab = c.prog.by_short.get('<%s as core::convert::AsRef<[u8]>>::as_ref' % ty) or []
-    if len(fb) == 1 and len(ab) == 1:
-        from ..flow import term_of_local
-
-        def only_wraps(t, leaf, kinds):
-            while isinstance(t, tuple) and t and t[0] in kinds:
-                if t[0] == 'agg':
-                    if len(t[2]) != 1:
-                        return False
-                    t = t[2][0][1]
-                else:
-                    t = t[1]
-            return t == leaf
-        tf = term_of_local(c.bf(fb[0].path), 0)
-        ta = term_of_local(c.bf(ab[0].path), 0)
-        okw = only_wraps(tf, ('param', 1), ('agg',)) and only_wraps(ta, ('param', 1), ('ref', 'deref', 'field'))
-        res.require(okw, 'C19:text:%s:wrappers' % key, '%s: From<[u8; %d]> / AsRef<[u8]> do not simply wrap the stored bytes: %s / %s' % (key, n, term_str(tf)[:60], term_str(ta)[:60]), ab[0].path,
-                    'TEXT-WRAP(From and AsRef are the identity on the bytes)', instance='%s: From<[u8; %d]> stores, AsRef<[u8]> returns the same bytes' % (key, n))
+    # the two conversions the text forms go through are plain wrappers of the stored bytes: From<[u8; N]> followed by AsRef<[u8]> hands
+    # back the same N bytes in the same order (composed in the abstract interpreter on N symbolic bytes)
+    okw, whatw = wrappers_roundtrip(c, ty, n)
+    if okw is None:
+        not_judged.append('%s: From<[u8; %d]> / AsRef<[u8]> composition %s' % (key, n, whatw))
     else:
-        not_judged.append('%s: From<[u8; %d]> / AsRef<[u8]> bodies not found' % (key, n))
+        res.require(okw, 'C19:text:%s:wrappers' % key, '%s: AsRef<[u8]> of From<[u8; %d]>(bytes) is not the same bytes in the same order: %s' % (key, n, whatw), ty,
+                    'TEXT-WRAP(From ; AsRef = identity on the bytes)', instance='%s: From<[u8; %d]> stores, AsRef<[u8]> returns the same bytes' % (key, n))
     bf = c.bf(d['fmt'])
     rev_d = None
     enc = [(bb, t) for bb, t in bf.calls() if callee_name(t).endswith('hex::encode_to_slice')]
@@ -449,7 +483,11 @@ def check_bytes(c, res, ty, d, n, not_judged, expect_reversed):
     takes = [(bb, t) for bb, t in bf.calls() if callee_name(t).endswith('Iterator::take')]
     why = []
     judged = True
-    if len(enc) == 1 and not enc_c:
+    one_byte = None
+    if len(enc) + len(enc_c) == 1:
+        eb, ebb, et = (bf, enc[0][0], enc[0][1]) if enc else enc_c[0]
+        one_byte = find_in_term(term_of_operand(eb, et.args[0]), lambda y: isinstance(y, tuple) and y[:1] == ('array',) and len(y[1]) == 1) is not None
+    if len(enc) == 1 and not enc_c and not one_byte:
         t = enc[0][1]
         src = term_of_operand(bf, t.args[0])
         dst = term_of_operand(bf, t.args[1])
@@ -458,8 +496,8 @@ def check_bytes(c, res, ty, d, n, not_judged, expect_reversed):
         if any(_calls_in(dst, s_) for s_ in ('index_mut', 'get_mut', 'split_at_mut')):
             why.append('the characters written are not the whole string')
         rev_d = False
-    elif not enc and len(enc_c) == 1:
-        cb, bb, t = enc_c[0]
+    elif len(enc) + len(enc_c) == 1 and one_byte:
+        cb, bb, t = (bf, enc[0][0], enc[0][1]) if enc else enc_c[0]
         src = term_of_operand(cb, t.args[0])
         dst = term_of_operand(cb, t.args[1])
         # item = (i, &b): one byte *b at characters 2i .. 2i + 2
@@ -478,8 +516,11 @@ def check_bytes(c, res, ty, d, n, not_judged, expect_reversed):
             why.append('byte i is not written at characters 2i..2i+2: %s' % term_str(dst)[:80])
         chain = None
         for bb2, t2 in bf.calls():
-            if callee_name(t2).endswith('Iterator::for_each'):
-                chain = term_of_operand(bf, t2.args[0])
+            # the iteration handed to for_each / a `for` loop (IntoIterator::into_iter) / try_for_each
+            for a_ in t2.args[:1]:
+                tm_ = term_of_operand(bf, a_)
+                if _calls_in(tm_, 'AsRef::as_ref') and _calls_in(tm_, 'Iterator::enumerate') and (chain is None or len(str(tm_)) < len(str(chain))):
+                    chain = tm_
         if chain is None or not (_calls_in(chain, 'AsRef::as_ref') and _calls_in(chain, 'Iterator::enumerate')):
             why.append('the bytes iterated are not self.as_ref() enumerated')
         else:
